@@ -86,6 +86,12 @@ impl Monitor for C07 {
                 if out.total_lines != base.lines.len() as u64 { push("aggregate-did-not-read-everything", format!("LIMIT {}: total_lines {} of {}", n, out.total_lines, base.lines.len()), &mut vs); }
             } else {
                 let needed = if n == 0 { 0 } else { cumulative.iter().position(|c| *c >= n as usize).map(|p| p + 1).unwrap_or(base.lines.len()) };
+                // the quiet mode of the executor (print_result off) consumes the same input and prints nothing
+                if let Ok(p) = { let mut s = sel.clone(); s.limit = Some(n); base.prepare_with(&s.text(Paren::Full), base.joined.as_deref(), "q") } {
+                    let quiet = eng::run_executor_opts(&base.tables, &p.stmt, &paths, "json", true, Arc::new(AtomicBool::new(true)), None, false);
+                    obs.evals += 1;
+                    if quiet.result.is_ok() && out.result.is_ok() && (quiet.total_lines != out.total_lines || !quiet.printed.is_empty()) { push("quiet-mode-differs", format!("{:?} LIMIT {}: printing run consumed {} lines, quiet run {} lines and printed {} records", base.sql, n, out.total_lines, quiet.total_lines, quiet.printed.len()), &mut vs); }
+                }
                 if out.total_lines as usize > needed { push("lines-consumed-beyond-the-nth-row", format!("{:?} LIMIT {}: {} lines consumed, the n-th row comes from line {} (of {})", base.sql, n, out.total_lines, needed, base.lines.len()), &mut vs); }
             }
         }
